@@ -557,6 +557,22 @@ def run(chk):
         chk.violation("abs-int64-min", "math.abs(-9223372036854775807 - 1) is negative: llabs(INT64_MIN) is undefined behaviour in C and returns INT64_MIN here "
                       "(theorem abs_refuted; abs_partial holds for every other value)", {"rule": "math.abs(-9223372036854775807 - 1) < 0", "observed": "true"})
 
+    # ---- G. (thorough) undefined behaviour in the module sources: UBSan build, lengths near INT64_MAX, abs(INT64_MIN)
+    if thorough:
+        ha = build.harness("h_scan", "asan")
+        conds = ["hash.%s(1, 9223372036854775807) == %s" % (f, '"x"' if f in ALGS else "1") for f in ALGS + ["crc32", "checksum32"]]
+        conds += ["math.%s(2, 9223372036854775806) == 1.5" % f for f in ("entropy", "serial_correlation", "monte_carlo_pi")]
+        srcu = IMPORTS + "\n".join("rule u%d { condition: %s }" % (i, c) for i, c in enumerate(conds))
+        outu, erru = vlib.run_cases(ha, [("ub", ["newcompiler", "strings 0", "add " + hx(srcu.encode()), "getrules", "scanner 0", "scan " + hx(b"abcdefgh"),
+                                                "sdestroy", "destroyrules", "destroycompiler"])])
+        ub = sorted(set(re.sub(r"^.*?/libyara/", "libyara/", l) for l in erru.split("\n") if "runtime error" in l and re.search(r"modules/(hash|math|string)/", l)))
+        stats["evaluations"] += len(conds)
+        if ub:
+            chk.violation("ub-offset-plus-length", "UBSan: `offset + length` overflows int64 in the break condition of the range loops for lengths near INT64_MAX "
+                          "(e.g. hash.md5(1, 9223372036854775807)): " + "; ".join(ub)[:600], {"rules": conds, "buffer": "6162636465666768", "ubsan": ub})
+        else:
+            stats["agree"] += len(conds)
+
     chk.note(evaluations=stats["evaluations"], traces_validated_against_impl=stats["agree"], distinct_nontrivial=len(classes),
              rule="every evaluation is one rule whose expected verdict comes from the extracted model (integers, byte ranges, cache runs, strtoll) "
                   "or from hashlib / the Python reference definitions (digests, float statistics); exhaustive (offset,length) in [-2,n+2]x[-2,n+3] plus 2^31, 2^32+1, "
